@@ -105,7 +105,13 @@ def check_world(rec, case, mjm, qpos, c, rng):
         co = t1 not in ("plane", "hfield") and np.linalg.norm(mjd.geom_xpos[g1] - mjd.geom_xpos[g2]) < 1e-6
         rec.viol("frame-zero" + (":coincident-centres" if co else (":dist==0" if abs(float(c["dist"][i])) < 1e-7 else "")), f"contact frame is all zeros (dist {c['dist'][i]}) {ctx}")
       elif defect > 1e-4 or det < 0:
-        rec.viol(f"frame-not-orthonormal:{pname}", f"max|F F^T - I|={defect:.3g} det={det:.3g} frame={F.round(5).tolist()} {ctx}")
+        fsig = f"frame-not-orthonormal:{pname}"
+        if pname == "plane-capsule":
+          pn = np.asarray(mjd.geom_xmat[g1], dtype=np.float64).reshape(3, 3)[:, 2]
+          ax = np.asarray(mjd.geom_xmat[g2], dtype=np.float64).reshape(3, 3)[:, 2]
+          if np.linalg.norm(ax - pn * (pn @ ax)) < 0.5 and (np.abs(F[1] - np.array([0.0, 1.0, 0.0])).max() < 1e-6 or np.abs(F[1] - np.array([0.0, 0.0, 1.0])).max() < 1e-6):
+            fsig += ":fallback-tangent"  # plane_capsule's world-axis fallback tangent is not orthogonalised against the normal
+        rec.viol(fsig, f"max|F F^T - I|={defect:.3g} det={det:.3g} frame={F.round(5).tolist()} {ctx}")
     b = idx[int(np.argmin(np.asarray(c["dist"])[idx]))]
     dist = float(c["dist"][b])
     n = np.asarray(c["frame"][b], dtype=np.float64).reshape(-1)[:3]
@@ -149,10 +155,9 @@ def check_world(rec, case, mjm, qpos, c, rng):
     dmj = None
     if t1 != "hfield":
       dmj = float(mujoco.mj_geomDistance(mjm, mjd, g1, g2, 1.0, None))
-      if abs(dmj - dist) < 1e-5:
-        tag += ":same-value-in-mujoco"
     ctx += f" mj_geomDistance={dmj}"
-    deepest[key][4] = tag.replace(":same-value-in-mujoco", "")
+    deepest[key][4] = tag
+    nv0 = len(rec.violations)
     gap = _col.support_gap(o1, o2, n)
     rec.check()
     judged += 1
@@ -161,8 +166,9 @@ def check_world(rec, case, mjm, qpos, c, rng):
       rec.count("unjudged:deep_penetration")
       r = 0.0
     rec.worst(f"dist_vs_support_gap[{num}]", r / 30)
+    gap_viol = r > 30
     if r > 30:
-      rec.viol(f"dist-vs-support-gap:{pname}{tag}", f"dist={dist:.6g} but the float64 separation along the reported normal is {gap:.6g} (normal {n}) {ctx}")
+      rec.viol(f"dist-vs-support-gap:{pname}", f"dist={dist:.6g} but the float64 separation along the reported normal is {gap:.6g} (normal {n}) {ctx}")
     elif r > 1:
       rec.count("grey:dist_vs_support_gap")
     cf = _col.closed_form_dist(o1, o2)
@@ -172,7 +178,7 @@ def check_world(rec, case, mjm, qpos, c, rng):
       rec.worst(f"dist_vs_closed_form[{num}]", r / 30)
       rec.cover("closed_form:" + pname, 1)
       if r > 30:
-        rec.viol(f"dist-vs-closed-form:{pname}{tag}", f"dist={dist:.6g} but the closed-form signed distance is {cf:.6g} {ctx}")
+        rec.viol(f"dist-vs-closed-form:{pname}", f"dist={dist:.6g} but the closed-form signed distance is {cf:.6g} {ctx}")
       elif r > 1:
         rec.count("grey:dist_vs_closed_form")
     elif t1 != "plane" and not deep:
@@ -182,7 +188,7 @@ def check_world(rec, case, mjm, qpos, c, rng):
       rec.worst(f"dist_maximality[{num}]", r / 30)
       rec.cover("maximality:" + pname, 1)
       if r > 30:
-        rec.viol(f"dist-not-maximal:{pname}{tag}", f"dist={dist:.6g} along normal {n}, but direction {bn} separates the shapes by {best:.6g}: the reported normal is not the direction of signed distance {ctx}")
+        rec.viol(f"dist-not-maximal:{pname}", f"dist={dist:.6g} along normal {n}, but direction {bn} separates the shapes by {best:.6g}: the reported normal is not the direction of signed distance {ctx}")
       elif r > 1:
         rec.count("grey:dist_maximality")
     # (d) pos midway between the surfaces
@@ -199,10 +205,15 @@ def check_world(rec, case, mjm, qpos, c, rng):
           s = max(s, 0.0)  # lower bound outside a mesh: only "too far outside" is decidable
         r = abs(s) / tol["surf"]
         rec.worst(f"point_on_surface[{num}]", r / 30)
-        if r > 30:
-          rec.viol(f"point-off-surface:{pname}:{side}{tag}", f"pos {'-' if side == 'geom1' else '+'} n*dist/2 = {p} is {s:.6g} away from the surface of {side} ({o.type}); dist={di:.6g} {ctx}")
+        if r > 30 and not gap_viol:  # (with a wrong dist the surface points are wrong as a consequence)
+          # convex-solver pairs whose dist and normal pass (c): only the witness points are off
+          rec.viol("point-off-surface:ccd-witness-points" if num == "ccd" else f"point-off-surface:{pname}", f"pos {'-' if side == 'geom1' else '+'} n*dist/2 = {p} is {s:.6g} away from the surface of {side} ({o.type}); dist={di:.6g} {ctx}")
         elif r > 1:
           rec.count("grey:point_on_surface")
+    if tag == ":parallel-axes" and len(rec.violations) > nv0:
+      # one mechanism (float32 determinant test sends exactly parallel capsules down the non-parallel branch)
+      rec.violations[nv0]["sig"] = "capsule-capsule:parallel-axes"
+      del rec.violations[nv0 + 1 :]
   return deepest, judged
 
 
@@ -285,7 +296,7 @@ def run_case(case):
           rec.count("metamorphic:ok")
         elif ratio < -0.5 and dist > -0.5 * minsize:
           rec.viol(
-            f"normal-direction:{'hfield' if t1 == 'hfield' else pname}{mtag}",
+            "capsule-capsule:parallel-axes" if mtag == ":parallel-axes" else f"normal-direction:{'hfield' if t1 == 'hfield' else pname}",
             f"world {w} geoms {key}: moving geom2 by {step:.4g} along the reported normal {n} changed the pair's deepest dist from {dist:.6g} to {d2:.6g} "
             f"(slope {ratio:.3g}, expected +1): the normal does not point from geom1 to geom2",
           )
